@@ -169,11 +169,11 @@ def explore_deletion(ctx, shape, tier, report):
         rid = w.atom('id', None, 'uid', n=16)
         if kind == 'node':
             node = w.node(id=rid, room_id=room, cdate=w.i64('cdate'), mdate=w.i64('mdate'), entity=short, author=author)
-            dq = w.struct('DeletionQuery', nodes=VecV([Cell(w.struct('NodeDelete', node=node, name=name, date=date))]), node_log=VecV(),
+            dq = w.deletion_query(nodes=VecV([Cell(w.struct('NodeDelete', node=node, name=name, date=date))]), node_log=VecV(),
                           updated_nodes=VecV(), edges=VecV(), edge_log=VecV())
         else:
             edge = w.edge(src=rid, src_entity=short, label=w.atom('label', None, 'str'), dest=w.atom('dest', None, 'uid', n=16), cdate=w.i64('cdate'), author=author)
-            dq = w.struct('DeletionQuery', nodes=VecV(), node_log=VecV(), updated_nodes=VecV(),
+            dq = w.deletion_query(nodes=VecV(), node_log=VecV(), updated_nodes=VecV(),
                           edges=VecV([Cell(w.struct('EdgeDelete', edge=edge, src_name=name, room_id=some(room), date=date))]), edge_log=VecV())
         info = dict(part='deletion', kind=kind, rooms=rooms_ev, caller=caller, name=name, room=room, author=author, date=date, rid=rid)
         try:
